@@ -635,7 +635,7 @@ TRANSPARENT = re.compile(
     r"|core::slice::<impl \[T\]>::(iter|len|first|last|get|to_vec|iter_mut)|alloc::vec::Vec::<T>::(len|iter|first|last|get|as_slice)"
     r"|alloc::vec::Vec::<T, A>::(len|as_slice|first|last)"
     r"|core::ops::range::RangeInclusive::<Idx>::(start|end|new)|core::ops::range::Range::<Idx>::(start|end)"
-    r"|(std::collections|alloc::collections|hashbrown)::.*::(len|iter|get|first|last|keys|values|first_key_value|last_key_value)"
+    r"|(std::collections|alloc::collections|hashbrown)::.*::(len|iter|get|first|last|keys|values|first_key_value|last_key_value|entry|or_insert|or_insert_with|or_default|get_mut|and_modify)"
     r")$")
 
 
